@@ -10,6 +10,7 @@ import (
 	"os/exec"
 	"path/filepath"
 	"strings"
+	"sync"
 	"syscall"
 	"time"
 
@@ -201,6 +202,63 @@ func durableDomain(lines []string) []string {
 			}
 			st.Close()
 			dc.out = append(dc.out, "append larger="+b01(larger))
+		case "concappend": // concappend <goroutines> <appends each>: one store handle, concurrent appenders, then close and reopen
+			g, n := atoi(f[1]), atoi(f[2])
+			st, err := ebsql.New(dc.path)
+			if err != nil {
+				dc.out = append(dc.out, "!open-failed "+err.Error())
+				continue
+			}
+			var wg sync.WaitGroup
+			var mu sync.Mutex
+			ack := map[int]int{} // event id -> acknowledged position
+			base := dc.next
+			for i := 0; i < g; i++ {
+				wg.Add(1)
+				go func(i int) {
+					defer wg.Done()
+					for k := 0; k < n; k++ {
+						id := base + i*n + k
+						data, _ := json.Marshal(map[string]int{"id": id})
+						off, err := st.Append(context.Background(), &eb.Event{Type: "t", Data: data, Timestamp: time.Unix(int64(id), 0)})
+						if err == nil {
+							mu.Lock()
+							ack[id] = atoi(string(off))
+							mu.Unlock()
+						}
+					}
+				}(i)
+			}
+			wg.Wait()
+			st.Close()
+			dc.next = base + g*n
+			recs, poss, _, err := dc.readAll()
+			if err != nil {
+				dc.out = append(dc.out, "!reopen-failed "+err.Error())
+				continue
+			}
+			at := map[int]int{}
+			for i, id := range recs {
+				at[id] = poss[i]
+			}
+			verdict := "concappend ok"
+			seenPos := map[int]int{}
+			for id, pos := range ack {
+				if other, dup := seenPos[pos]; dup {
+					verdict = fmt.Sprintf("!concappend events %d and %d were both acknowledged at offset %d", other, id, pos)
+					break
+				}
+				seenPos[pos] = id
+				if p, ok := at[id]; !ok {
+					verdict = fmt.Sprintf("!concappend event %d was acknowledged (offset %d) but is not in the reopened log", id, pos)
+					break
+				} else if p != pos {
+					verdict = fmt.Sprintf("!concappend event %d was acknowledged at offset %d but is stored at %d", id, pos, p)
+					break
+				}
+			}
+			dc.acked = recs
+			dc.out = append(dc.out, verdict)
 		case "busyappend": // another connection holds the write lock for longer than the busy timeout
 			other, err := sql.Open("sqlite", "file:"+dc.path)
 			if err != nil {
